@@ -1042,6 +1042,9 @@ func (g *gen) bindLocals(env *SpecEnv) {
 		if _, isParam := env.vars[name]; isParam {
 			continue
 		}
+		if _, cell := g.varAt["&"+name]; cell {
+			continue // an address-taken local: its cell's current content is the value (below)
+		}
 		for v := range set {
 			if val, ok := g.vals[v]; ok {
 				env.vars[name] = &SV{V: val}
@@ -1051,9 +1054,8 @@ func (g *gen) bindLocals(env *SpecEnv) {
 	for name, v := range g.varAt {
 		if strings.HasPrefix(name, "&") {
 			n := name[1:]
-			if _, isParam := env.vars[n]; isParam {
-				continue
-			}
+			// a parameter that lives in a cell (reassigned and address-taken in
+			// the body): outside old() its name means the cell's current content
 			if _, direct := g.varAt[n]; direct {
 				continue
 			}
